@@ -943,6 +943,22 @@ pub async fn drain_and_final(sim: &mut Sim) {
                     ));
                     return;
                 }
+                "C05" if !handles.is_empty() && !sh.accept.borrow().as_ref().map_or(true, |a| a.paused()) => {
+                    // the accept loop sees no available worker although every connection has been
+                    // released: an availability notice got lost on the way (e.g. during a pause)
+                    let spare = handles.iter().find(|idx| sh.live_slot_of(**idx).map_or(false, |s| sh.in_progress(s) < sh.cfg.limit));
+                    if let Some(idx) = spare {
+                        sh.violate(
+                            Violation::new(
+                                "listener-stranded",
+                                format!("after pause/resume/back-off ended, {w} client(s) are still waiting on {kind} listener l{l} at quiescence: worker w{idx} is idle but the accept loop does not see it as available"),
+                            )
+                            .fact("listener", kind)
+                            .fact("after_pause", sim.o.pause_seen),
+                        );
+                        return;
+                    }
+                }
                 "C08" if !handles.is_empty() => {
                     // the accept loop sees no available worker: true only if every worker in the
                     // rotation really is at its limit (every connection was released above)
@@ -1035,6 +1051,33 @@ pub async fn drain_and_final(sim: &mut Sim) {
                         format!("the service of l{l} failed its readiness check on worker slot {slot} and was never re-created"),
                     ));
                 }
+            }
+        }
+    }
+    if prop == "C08" && running {
+        // a dead worker whose connections have all been torn down (they were released above) and a
+        // client that waits: the tear-down of a saturated worker announces a free slot, an
+        // unsaturated one still has its bit set, so the next dispatch finds the fault
+        let waiting: usize = (0..sh.cfg.listeners.len()).filter(|l| !sim.o.listener_unreachable[*l]).map(|l| waiting_on(&sh, l)).sum();
+        if waiting > 0 {
+            let handles = sh.accept.borrow().as_ref().unwrap().handle_idxs();
+            let ws = sh.workers.borrow();
+            // (a connection that was still queued at the worker when it died never got a counter
+            // guard: nothing announces its end and the worker keeps looking saturated — observation
+            // O3, outside the statement; only deaths whose connections had all been picked up count)
+            let conns = sh.conns.borrow();
+            let dead_in_rotation = handles.iter().find(|idx| {
+                // the incarnation the rotation's handle belongs to is the latest one
+                let last = ws.iter().enumerate().filter(|(_, w)| w.idx == **idx).map(|(slot, _)| slot).last();
+                sh.live_slot_of(**idx).is_none()
+                    && last.map_or(false, |slot| ws[slot].state == SlotState::Killed && !conns.iter().any(|c| c.owner == Some(slot) && c.calls == 0))
+            });
+            if let Some(idx) = dead_in_rotation {
+                sh.violate(Violation::new(
+                    "fault-never-discovered",
+                    format!("worker w{idx} is dead and all of its connections are gone, {waiting} client(s) wait at quiescence, but nothing is dispatched to it: its death is never discovered and no replacement is started (rotation {handles:?})"),
+                ));
+                return;
             }
         }
     }
